@@ -21,8 +21,8 @@ TOLERANCES = {"coord_rel_to_pitch": 1e-9}
 EXHAUSTIVE = {"quick": True, "thorough": True}
 EXHAUSTIVE_PART = "all cells within N rings (quick 14, thorough 50) x both orientations x all k in [-13,13]; 4 cartesian quarter variants"
 FLOORS = {
-    "quick": {"hex.sym": 500, "hex.rot": 10000, "cart.sym": 1000, "block.rotate": 150, "assem.rotate": 60, "hex.rot.cellnumber": 3000},
-    "thorough": {"hex.sym": 7000, "hex.rot": 100000, "cart.sym": 10000, "block.rotate": 3000, "assem.rotate": 1000, "hex.rot.cellnumber": 30000},
+    "quick": {"hex.sym": 500, "hex.rot": 10000, "cart.sym": 1000, "block.rotate": 150, "assem.rotate": 60, "hex.rot.cellnumber": 3000, "hex.sym.after-symmetry-change": 40},
+    "thorough": {"hex.sym": 7000, "hex.rot": 100000, "cart.sym": 10000, "block.rotate": 3000, "assem.rotate": 1000, "hex.rot.cellnumber": 30000, "hex.sym.after-symmetry-change": 600},
 }
 
 
@@ -30,7 +30,7 @@ def plan(tier, seed):
     n = 14 if tier == "quick" else 50
     out = []
     for cu in (False, True):
-        out.append({"name": "hexsym-%d" % cu, "kind": "hexsym", "cornersUp": cu, "rings": n})
+        out.append({"name": "hexsym-%d" % cu, "kind": "hexsym", "cornersUp": cu, "rings": n, "flips": 40 if tier == "quick" else 600})
         out.append({"name": "hexrot-%d" % cu, "kind": "hexrot", "cornersUp": cu, "rings": n, "nrand": 2000 if tier == "quick" else 40000})
     out.append({"name": "cart", "kind": "cart", "rings": 10 if tier == "quick" else 40})
     nb = 4 if tier == "quick" else 12
@@ -146,6 +146,36 @@ def do_hexsym(spec, rec, rng):
         except Exception as e:
             rec.crash("hexsym", e, w)
         rec.case(["hexsym", cu, i, j], nontrivial=(i, j) != (0, 0), sample=w if (i, j) == (3, -1) else None)
+    # one grid object whose symmetry is changed in place between queries (Core.symmetry's setter and the third<->full converters do
+    # exactly this): every answer follows the symmetry the grid has at the time of the question, not the one at the first question
+    allc = [c_ for c_ in cells(N) if c_ != (0, 0)]
+    for t in range(spec.get("flips", 40)):
+        start = rng.choice(["third periodic", "full"])
+        g2 = grids.HexGrid.fromPitch(pitch, numRings=2, cornersUp=cu, symmetry=start)
+        seq = [start] + [rng.choice(["third periodic", "full"]) for _ in range(rng.randint(1, 4))]
+        w = {"cornersUp": cu, "symmetries": seq}
+        try:
+            for k, sym in enumerate(seq):
+                if k:
+                    g2.symmetry = sym
+                if k and rng.random() < .2:
+                    continue  # not every state is queried
+                i, j = rng.choice(allc)
+                rec.hit("hex.sym.after-symmetry-change" if k and sym != seq[k - 1] else "hex.sym.same-symmetry-again")
+                eq = sorted(tuple(e) for e in (g2.getSymmetricEquivalents((i, j, 0)) if rng.random() < .5 else g2[i, j, 0].getSymmetricEquivalents()))
+                x, y = hex_xy(i, j, pitch, cu)
+                want = sorted(cell_at(*rot(x, y, d)) for d in (120, 240)) if sym.startswith("third") else []
+                if eq != want:
+                    rec.violation("hexsym/equivalents-follow-an-earlier-symmetry", "grid now %r (history %s): equivalents of %s are %s, expected %s" % (sym, seq[:k + 1], (i, j), eq, want), w)
+                    break
+                orbit = [(i, j)] + eq
+                inside = [o for o in orbit if g2.locatorInDomain(g2[o[0], o[1], 0])]
+                if len(inside) != (1 if sym.startswith("third") else len(orbit)):
+                    rec.violation("hexsym/domain-follows-an-earlier-symmetry", "grid now %r (history %s): %d of the orbit %s are in the domain" % (sym, seq[:k + 1], len(inside), orbit), w)
+                    break
+        except Exception as e:
+            rec.crash("hexsym-flip", e, w)
+        rec.case(["hexsym-flip", cu, tuple(seq)], nontrivial=True, sample=w if t == 0 else None)
 
 
 def do_hexrot(spec, rec, rng):
